@@ -1,4 +1,5 @@
 import Gomjml.Core.Cache
+import Gomjml.Core.CacheConc
 import Gomjml.Gen.Misc
 /-! # C13 — the AST cache is transparent
 
@@ -44,6 +45,32 @@ example : (runOps wEx (init 100) [.render 0 true 1, .render 0 true 0, .render 0 
 def wColl : World := { parse := fun d => .ok d, rend := fun a _ => a, hash := fun _ => 0 }
 example : (runOps wColl (init 100) [.render 0 true 0, .render 1 true 0]).2 ≠ expected wColl [.render 0 true 0, .render 1 true 0] := by
   decide
+
+/-! ### under concurrency -/
+
+/-- **C13 for concurrent compilations, every schedule**: any number of compilations in flight — cached and uncached, any
+    documents and options — interleaved step by step (`Load`, expiry test, `Delete`, joining the single-flight, parsing, `Store`,
+    hand-over) with each other, with time passing, and with an environment that may delete any entry at any moment (the cleanup
+    goroutine whatever it does, running, stopped or restarted): a compilation that has returned has returned what the stateless
+    compiler returns for its document and options.  (Collision-free keys, as in the sequential statement.) -/
+theorem C13_concurrent (w : World) (j : Gomjml.CacheConc.Job) (hinj : ∀ d d', w.hash d = w.hash d' → d = d') (ttl : Int)
+    (σ : List Gomjml.CacheConc.Ev) (t : Nat) (o : Except Err Html)
+    (h : (Gomjml.CacheConc.run w j (Gomjml.CacheConc.init ttl) σ).pc t = .done o) : o = spec w (j.doc t) (j.opt t) :=
+  Gomjml.CacheConc.conc_transparent w j hinj ttl σ t o h
+
+/-- at every moment of every schedule every stored tree is the parse of a document with that key -/
+theorem C13_concurrent_store_sound (w : World) (j : Gomjml.CacheConc.Job) (hinj : ∀ d d', w.hash d = w.hash d' → d = d') (ttl : Int)
+    (σ : List Gomjml.CacheConc.Ev) (k : CKey) (e : Entry) (h : (Gomjml.CacheConc.run w j (Gomjml.CacheConc.init ttl) σ).store k = some e) :
+    ∃ d, w.hash d = k ∧ w.parse d = .ok e.ast := Gomjml.CacheConc.conc_store_sound w j hinj ttl σ k e h
+
+/-- non-vacuity: three compilations of one document (one with debug tags), interleaved so that the first becomes the leader, the
+    second waits for it, an eviction happens in between, and the third arrives after expiry: all three return their own output -/
+def jEx : Gomjml.CacheConc.Job := { doc := fun _ => 0, opt := fun t => if t = 1 then 1 else 0, cached := fun _ => true }
+def sEx : Gomjml.CacheConc.St :=
+  Gomjml.CacheConc.run wEx jEx (Gomjml.CacheConc.init 100)
+    [.thread 0, .thread 0, .thread 0, .thread 1, .thread 1, .thread 1, .thread 0, .thread 0, .evict 0, .thread 0, .thread 1,
+     .thread 2, .thread 2, .thread 2, .thread 2, .thread 2, .thread 2]
+example : (sEx.pc 0).doneOk = some 20 ∧ (sEx.pc 1).doneOk = some 1020 ∧ (sEx.pc 2).doneOk = some 20 := by decide
 
 /-- Regenerated fact: the cache map is stored to at exactly one site, inside `parseAST` (after a successful parse);
     deleted from only in `parseAST` (expired on lookup) and in the cleanup goroutine. -/
